@@ -1,4 +1,5 @@
 import CqlVerif.Model.Ring
+import CqlVerif.Model.Md5
 import CqlVerif.Drv.Idem
 namespace CqlVerif.Drv.RingStream
 open CqlVerif CqlVerif.Drv CqlVerif.Ring
@@ -14,7 +15,7 @@ def renderVal : Val → String
   | .str s => "s" ++ hexStr s
   | .ip n => "ip" ++ n
   | .uuidSchema => "u4f2b29e659b54e2d8fd601e32e67f0d7"
-  | .hostId n => s!"hostid({n})"
+  | .hostId n => "u" ++ Md5.hex (Md5.nameBasedUUID n.toUTF8.toList)   -- `nameBasedUUID(address text)`, computed by Model/Md5
   | .int n => s!"i{n}"
   | .strList l => "l[" ++ ",".intercalate (l.map hexStr) ++ "]"
   | .timeuuid => "timeuuid"
